@@ -293,6 +293,64 @@ Definition sp_conc (i o : tree) : bool :=
 Definition run_conc_close (i : tree) : tree := Closers.run_cclose i.
 Definition sp_conc_close (i o : tree) : bool := Closers.sp_cclose true i o.
 
+(* ------------------------------------------------------------------ fn 6: sends between the packets of a package *)
+(* input (need nenv ps ((id nr0) ...) (op ...))   op = (0 packet) | (2 id typ ((chunk ...) ...) mode) | (3 id)
+   mode: how the harness performs the message (0 QueuePackage ... SendPackage, 1 QueuePackage ... SendRemainingPackets);
+   (3 id) = Channel.Reset.  output per op: packet -> as fn 1; send / reset -> (code (#write ...)) *)
+Definition hop_of_tree (t : tree) : hop :=
+  let k := t_int (t_nth 0 t) in
+  if k =? 2 then HSend (t_int (t_nth 1 t)) (t_int (t_nth 2 t)) (map (fun p => map t_bytes (t_list p)) (t_list (t_nth 3 t)))
+  else if k =? 3 then HReset (t_int (t_nth 1 t))
+  else HRx (rop_of_tree t).
+
+Definition hout_tree (x : hout) : tree :=
+  match x with
+  | HoRx r => rout_tree r
+  | HoTx c ws => TL [TI c; TL (map TB ws)]
+  end.
+
+Definition run_between (i : tree) : tree :=
+  let need := Z.to_nat (t_int (t_nth 0 i)) in
+  let nenv := Z.to_nat (t_int (t_nth 1 i)) in
+  let chs := t_list (t_nth 3 i) in
+  let ids := map (fun c => t_int (t_nth 0 c)) chs in
+  TL (map hout_tree (fst (hist_run need nenv (t_int (t_nth 2 i)) (cm_init ids, tm_init chs)
+                                   (map hop_of_tree (t_list (t_nth 4 i)))))).
+
+(* "each package is delivered to exactly the channel named in its packet header in the order the server sent it ...
+   under every interleaving of ... sends, receives ...": what the client SENDS between the packets has no meaning for
+   what the server sent.  The predicate forgets the send / reset operations and asks of the remaining operations what
+   fn 1 asks (every channel: exactly what a single-channel connection delivers for the packets addressed to it);
+   of the sends it asks what fn 2 asks (own id, consecutive numbers, the payloads), every call returning without error. *)
+Definition is_rx_pair (ho : hop * tree) : bool := match fst ho with HRx _ => true | _ => false end.
+Definition rop_of_hop (h : hop) : rop := match h with HRx o => o | _ => OClose (-1) end.
+Definition top_of_hop (h : hop) : list top :=
+  match h with HSend id typ pkgs => [TSend id typ pkgs] | _ => [] end.
+
+Definition sp_between (i o : tree) : bool :=
+  let need := Z.to_nat (t_int (t_nth 0 i)) in
+  let nenv := Z.to_nat (t_int (t_nth 1 i)) in
+  let chs := t_list (t_nth 3 i) in
+  let ids := map (fun c => t_int (t_nth 0 c)) chs in
+  let hs := map hop_of_tree (t_list (t_nth 4 i)) in
+  let outs := t_list o in
+  let pairs := combine hs outs in
+  let rxp := filter is_rx_pair pairs in
+  let txp := filter (fun ho => negb (is_rx_pair ho)) pairs in
+  let os := map (fun ho => rop_of_hop (fst ho)) rxp in
+  let ros := map snd rxp in
+  let log := concat (map (fun ho => map t_bytes (t_list (t_nth 1 (snd ho)))) txp) in
+  let next := map (fun c => (t_int (t_nth 0 c), t_int (t_nth 1 c))) chs in
+  (length outs =? length hs)%nat &&
+  forallb (fun x => match x with OPkt _ => true | OClose _ => false end) os &&      (* this family closes nothing *)
+  sp_ops_ok ids os ros &&
+  forallb (fun id => let '(ps, seen) := sp_stream id os ros in
+                     tree_eqb (TL seen) (TL (single_channel need nenv ps))) ids &&
+  forallb (fun ho => (t_int (t_nth 0 (snd ho)) =? 0) &&
+                     forallb (fun t => match t with TB _ => true | _ => false end) (t_list (t_nth 1 (snd ho)))) txp &&
+  sp_log_ok next log &&
+  forallb (fun kv => list_Z_eqb (bodies_of (fst kv) log) (payloads_of (fst kv) (concat (map top_of_hop hs)))) next.
+
 (* ------------------------------------------------------------------ dispatch *)
 Definition run (fn : Z) (i : tree) : tree :=
   match fn with
@@ -301,6 +359,7 @@ Definition run (fn : Z) (i : tree) : tree :=
   | 3 => run_conc i
   | 4 => run_setup i
   | 5 => run_conc_close i
+  | 6 => run_between i
   | _ => tbad
   end.
 
@@ -311,5 +370,6 @@ Definition spec (fn : Z) (i o : tree) : bool :=
   | 3 => sp_conc i o
   | 4 => sp_setup i o
   | 5 => sp_conc_close i o
+  | 6 => sp_between i o
   | _ => false
   end.
